@@ -484,6 +484,21 @@ class ConcurrentBlocks(SubCheck):
 
         n = len(case['progs'])
         box = {}
+        # known finding C08/swallowed-failure-in-block: an operation that fails inside a block whose exception the caller
+        # handles leaves its freshly written value file behind when the block commits (no savepoints).  Excluded by
+        # construction here (counted); the dedicated probe below keeps the witness.
+        excluded = 0
+        progs = []
+        for prog in case['progs']:
+            new = []
+            for op in prog:
+                if op[0] == 'block' and any(i[0] == 'setbad' for i in op[1]):
+                    excluded += 1
+                    inner = tuple(i for i in op[1] if i[0] != 'setbad') or (('get', 'x'),)
+                    op = ('block', inner, op[2])
+                new.append(op)
+            progs.append(new)
+        case = dict(case, progs=progs)
 
         def open_clients(path):
             base = diskcache.Cache(path, timeout=0, disk_min_file_size=64)
@@ -505,7 +520,60 @@ class ConcurrentBlocks(SubCheck):
                 'C08/audit/%s/concurrent-block' % box['problems'][0][0],
                 'after all clients finished (client 0 ran a transaction block): %s\n%s' % (short(box['problems'], 400), '\n'.join('  ' + repr(c) for c in sorted(calls, key=lambda c: c.inv))),
             )
-        return {'nontrivial': sched.switches > 0, 'classes': ['mode=' + case['mode']]}
+        return {'nontrivial': sched.switches > 0, 'classes': ['mode=' + case['mode']] + (['excluded:swallowed-failure-in-block'] if excluded else [])}
 
 
-SUBCHECKS = [FaultedHistories(), Concurrent(), ConcurrentBlocks()]
+class SwallowedFailure(SubCheck):
+    """An operation fails inside a transaction block (its row write raises), the caller handles the exception and the
+    block commits.  Enumerated small scope; the orphaned new file is a recorded known finding, anything else is not."""
+
+    name = 'swallowed_failure_in_block'
+    exhaustive = True
+
+    def examples(self, tier):
+        return 0
+
+    def enumerate(self, tier):
+        for method in ('set', 'add'):
+            for present in ('absent', 'inline', 'file'):
+                for expired in (False, True):
+                    for target in ('cache', 'index'):
+                        yield {'method': method, 'present': present, 'expired': expired, 'target': target}
+
+    def execute(self, case, env):
+        import diskcache
+
+        seams = get_seams(env)
+        path = env.scratch.fresh('swf')
+        cache = diskcache.Cache(path, disk_min_file_size=64, eviction_policy='none')
+        try:
+            if case['present'] != 'absent':
+                cache.set('k', 'old' if case['present'] == 'inline' else b'O' * 200, expire=5 if case['expired'] else None)
+            cache.set('other', b'X' * 200)
+            if case['expired']:
+                seams.clock.advance(10)
+            before = {k: cache.get(k, 'MISSING') for k in ('k', 'other')}
+            listed_before = 'k' in list(cache)
+            obj = diskcache.Index.fromcache(cache) if case['target'] == 'index' else cache
+            with obj.transact():
+                try:
+                    getattr(cache, case['method'])('k', b'N' * 300, tag=c05.UNBINDABLE)
+                except Exception:
+                    pass  # the caller handles the failure and goes on
+                cache.set('after', 1)
+            after = {k: cache.get(k, 'MISSING') for k in ('k', 'other')}
+            if after != before or cache.get('after') != 1:
+                raise Violation('C08/swallowed-failure-in-block/contents-changed', 'a failed %s inside a committed block changed the contents: %r -> %r' % (case['method'], short(before, 200), short(after, 200)))
+            probs = Snapshot(path).problems()
+            kinds = sorted({p[0] for p in probs})
+            if kinds == ['orphan-file']:
+                raise Violation('C08/swallowed-failure-in-block/orphan-new-file', 'the value file written for the failed %s stays behind after the block commits: %s' % (case['method'], short(probs, 300)))
+            if kinds:
+                raise Violation('C08/swallowed-failure-in-block/%s' % kinds[0], 'after the block committed: %s' % short(probs, 300))
+            return {'nontrivial': True, 'classes': ['clean']}
+        finally:
+            cache.close()
+            env.scratch.drop(path)
+
+
+SUBCHECKS = [FaultedHistories(), Concurrent(), ConcurrentBlocks(), SwallowedFailure()]
